@@ -345,6 +345,15 @@ Theorem C02_bf_place_sound_any_set_order :
     Feasible vr m cs pl.
 Proof. exact bf_place_full_sound. Qed.
 
+(* hilbert.place with its default vertex order (breadth_first=True: the same generator) and the Hilbert chip order. *)
+Theorem C02_hilbert_bf_place_sound_any_set_order :
+  forall pick arr vr nets m cs pl,
+    pick_ok pick -> arr_ok arr -> NoDup (map fst vr) ->
+    wf_problem vr m cs -> consistent cs ->
+    hilbert_place vr m cs (Some (bf_order pick arr nets (map fst vr))) = Ok pl ->
+    Feasible vr m cs pl.
+Proof. exact hilbert_bf_place_sound. Qed.
+
 (* What the per-run replay obligation (corr:bf_order) establishes for a real order when it evaluates to true: the
    order lists every vertex exactly once, and it IS the model's output under the set choices read off it. *)
 Theorem C02_bf_replay_meaning :
